@@ -62,6 +62,12 @@ func ruleClientIDs(c *Ctx, r1, r2, r3 string) {
 	}
 	c.check(held != "", r1, w.Short(fn)+": id allocation and first send in one critical section", w.At(send), "held continuously: "+held, "no mutex is held continuously from the id allocation to the carrier send of new_stream (at allocation "+lf.relMust[alloc].String()+", at send "+lf.relMust[send].String()+"): two goroutines can put ids on the wire out of order, which the server answers by ending the tunnel")
 	c.check(dominates(alloc, send), r1, w.Short(fn)+": allocation precedes the send", w.At(send), "dominates", "the new_stream send is not dominated by the allocation")
+	// the stream is registered before its first frame goes out (the peer may answer at once)
+	okReg := false
+	if a.Allocate != nil && tableInsert(a.Allocate, a.ChStreams) != nil && staticCallee(alloc) == a.Allocate {
+		okReg = dominates(alloc, send)
+	}
+	c.check(okReg, r3, w.Short(fn)+": stream registered in the table before new_stream is sent", w.At(send), "table insert (in the allocation call) dominates the send", "the stream is inserted into the channel's table only after new_stream was sent: response frames that arrive in between find no entry, are classified as late frames of a finished stream and are silently dropped")
 
 	// ---- C08.2
 	al := a.Allocate
@@ -138,15 +144,15 @@ func ruleClientIDs(c *Ctx, r1, r2, r3 string) {
 				}
 			}
 			c.check(okSucc && dominates(send, ret), r3, key+": stream returned only after a successful new_stream send", w.At(ret), "dominated by send error == nil", "the stream is handed to the caller on a path where the new_stream send did not (provably) succeed: later frames would refer to a stream the server never saw")
-		} else if dominates(send, ret) {
-			// failure after send attempt: entry removed
+		} else if allocSucceededAt(alloc, ret) {
+			// failure after the stream was registered: entry removed
 			rm := false
 			allInstrs(fn, func(in ssa.Instruction) {
 				if call, ok := in.(*ssa.Call); ok && staticCallee(call) == a.ClientRemove && dominates(call, ret) {
 					rm = true
 				}
 			})
-			c.check(rm, r3, key+": failed send removes the table entry", w.At(ret), "removeStream(id) before returning the error", "when the new_stream send fails the stream stays in the table forever (leak) and its id is never disposed of")
+			c.check(rm, r3, key+": failure after registration removes the table entry", w.At(ret), "removeStream(id) before returning the error", "the RPC fails here after its stream was registered (new_stream send failed, or an early exit between allocation and send) without removing the table entry: it stays in the table for as long as the tunnel lives (leak)")
 		}
 	}
 	// watcher spawn after successful send
@@ -175,6 +181,24 @@ func ruleClientIDs(c *Ctx, r1, r2, r3 string) {
 }
 
 func rule2or(r string) string { return r }
+
+// allocSucceededAt: ret is reached only on paths where the allocation call returned a nil error.
+func allocSucceededAt(alloc *ssa.Call, ret ssa.Instruction) bool {
+	if !dominates(alloc, ret) {
+		return false
+	}
+	tup, ok := alloc.Type().(*types.Tuple)
+	if !ok {
+		return false
+	}
+	errV := extractOf(alloc, tup.Len()-1)
+	for _, f := range factsAt(ret) {
+		if x, op, y, isCmp := cmpFact(f); isCmp && op == token.EQL && x == errV && isNilConst(y) {
+			return true
+		}
+	}
+	return false
+}
 
 // freshAllocStrict: base is an Alloc (object under construction) in this function.
 func freshAllocStrict(base ssa.Value) bool {
@@ -600,6 +624,39 @@ func ruleFailFast(c *Ctx, rule string) {
 }
 
 // blocking waits (C04.4).
+// guaranteedClosed: the channel in field fr is closed whenever the object it belongs to is finished:
+// closed in the client finishing function (once-guarded, CAS-winner path), or inside the sync.Once
+// closure of a receiver's close(). Channels closed only on a success path (settings signal, registry
+// latch) are NOT guaranteed: waiting on them needs a context alternative.
+func (c *Ctx) guaranteedClosed(fr FieldRef) (bool, string) {
+	w := c.W
+	a := w.Anchors()
+	for _, fn := range w.Funcs {
+		if isGenericTemplate(fn) || len(closesOfField(fn, fr)) == 0 {
+			continue
+		}
+		if fn == a.ClientFinish {
+			return true, "closed by the client finishing function"
+		}
+		if fn.Parent() != nil && fn.Parent().Name() == "close" {
+			once := false
+			allInstrs(fn.Parent(), func(in ssa.Instruction) {
+				if ci, ok := in.(*ssa.Call); ok && calleeName(ci) == "(*sync.Once).Do" {
+					for _, arg := range ci.Call.Args {
+						if mc, ok := arg.(*ssa.MakeClosure); ok && mc.Fn == fn {
+							once = true
+						}
+					}
+				}
+			})
+			if once {
+				return true, "closed by the receiver's close() (sync.Once)"
+			}
+		}
+	}
+	return false, ""
+}
+
 func ruleWaitsReleased(c *Ctx, rule string) {
 	c.rule(rule, "every blocking wait in the package has a release edge that the stream/tunnel termination functions fire: a Done() case of a context, a channel that is closed by close()/finish, a cond with Broadcast on close and cancel, or a WaitGroup whose holders are ended by the waiting function")
 	w := c.W
@@ -623,12 +680,9 @@ func ruleWaitsReleased(c *Ctx, rule string) {
 					if call, ok := st.Chan.(*ssa.Call); ok && call.Call.IsInvoke() && call.Call.Method.Name() == "Done" {
 						rel = "case <-" + desc(call.Call.Value) + ".Done()"
 					}
-					if fr, _, ok := loadedField(st.Chan); ok {
-						// a channel field that some function closes
-						for _, f2 := range w.Funcs {
-							if len(closesOfField(f2, fr)) > 0 && rel == "" {
-								rel = "case <-" + fr.String() + " (closed in " + w.Short(f2) + ")"
-							}
+					if fr, _, ok := loadedField(st.Chan); ok && rel == "" {
+						if g, how := c.guaranteedClosed(fr); g {
+							rel = "case <-" + fr.String() + " (" + how + ")"
 						}
 					}
 					// snapshot of a latch taken under the lock (waitForReady): a local loaded from a field
@@ -640,7 +694,7 @@ func ruleWaitsReleased(c *Ctx, rule string) {
 						}
 					}
 				}
-				c.check(rel != "", rule, key, w.At(e.Instr), "released by "+rel, "this blocking select has no case that a termination function fires (no ctx.Done() alternative and no channel that is ever closed): the goroutine can wait forever when the RPC or tunnel ends")
+				c.check(rel != "", rule, key, w.At(e.Instr), "released by "+rel, "this blocking select has no case that a termination function always fires (no ctx.Done() alternative and no channel that is closed on every termination path): the goroutine can wait forever when the RPC or tunnel ends")
 			case "chan-recv":
 				n++
 				u := e.Instr.(*ssa.UnOp)
@@ -657,13 +711,11 @@ func ruleWaitsReleased(c *Ctx, rule string) {
 					}
 				}
 				if fr, _, ok := loadedField(u.X); ok {
-					for _, f2 := range w.Funcs {
-						if len(closesOfField(f2, fr)) > 0 {
-							rel = fr.String() + " closed in " + w.Short(f2)
-						}
+					if g, how := c.guaranteedClosed(fr); g {
+						rel = fr.String() + " " + how
 					}
 				}
-				c.check(rel != "", rule, key, w.At(e.Instr), "released by "+rel, "this blocking receive is from a channel that no termination function closes")
+				c.check(rel != "", rule, key, w.At(e.Instr), "released by "+rel, "this blocking receive is from "+desc(u.X)+", a channel that is not closed on every termination path (e.g. the settings signal is closed only when settings arrive; the registry latch only when a tunnel registers): without a ctx.Done() alternative the caller hangs when the tunnel or RPC ends first")
 			case "chan-send":
 				n++
 				c.fail(rule, key, w.At(e.Instr), "unconditional blocking channel send: no release edge")
@@ -749,6 +801,21 @@ func ruleClosePathsReachCarrier(c *Ctx, rule string) {
 		}
 	}
 	c.check(okRange, rule, "Stop half-closes every registered instance", posOf(w, stop), "for stream := range instances { stream.CloseSend() }", "Stop does not call CloseSend on every registered tunnel: Serve calls never return and Stop blocks")
+	if cs != nil {
+		okGuard := true
+		var whyG string
+		for _, f := range factsAt(cs) {
+			x, op, y, ok := cmpFact(f)
+			if !ok || !isFieldLoad(x, FieldRef{"ReverseTunnelServer", "state"}) {
+				continue
+			}
+			k, isK := constInt(y)
+			if !(isK && k == 2 && op == token.NEQ) {
+				okGuard, whyG = false, "state "+op.String()+" "+desc(y)
+			}
+		}
+		c.check(okGuard, rule, "Stop acts unless already closed", w.At(cs), "the half-close loop is skipped only when state == closed", "Stop half-closes the tunnels only when "+whyG+": after GracefulStop (state closing) Stop would skip the half-close and then wait forever for Serve calls that nothing ends")
+	}
 	stF := FieldRef{"ReverseTunnelServer", "state"}
 	okState := false
 	for _, st := range storesToField(stop, stF) {
